@@ -872,4 +872,55 @@ pub mod verif_hooks {
     pub fn adorder_new(ad: u8) -> Result<ADOrder, String> {
         ADOrder::new_py(ad).map_err(cls)
     }
+    /// `Dual.vars_from` / `Dual2.vars_from` (static methods)
+    pub fn dual_vars_from(
+        other: &Dual,
+        real: f64,
+        vars: Vec<String>,
+        dual: Vec<f64>,
+    ) -> Result<Dual, String> {
+        Dual::vars_from(other, real, vars, dual).map_err(cls)
+    }
+    pub fn dual2_vars_from(
+        other: &Dual2,
+        real: f64,
+        vars: Vec<String>,
+        dual: Vec<f64>,
+        dual2: Vec<f64>,
+    ) -> Result<Dual2, String> {
+        Dual2::vars_from(other, real, vars, dual, dual2).map_err(cls)
+    }
+    /// the `real` and `vars` getters
+    pub fn dual_scalars(a: &Dual) -> Result<(f64, Vec<String>), String> {
+        Ok((
+            a.real_py().map_err(cls)?,
+            a.vars_py().map_err(cls)?.into_iter().cloned().collect(),
+        ))
+    }
+    pub fn dual2_scalars(a: &Dual2) -> Result<(f64, Vec<String>), String> {
+        Ok((
+            a.real_py().map_err(cls)?,
+            a.vars_py().map_err(cls)?.into_iter().cloned().collect(),
+        ))
+    }
+    pub fn dual_ptr_eq(a: &Dual, b: &Dual) -> Result<bool, String> {
+        a.ptr_eq_py(b).map_err(cls)
+    }
+    pub fn dual2_ptr_eq(a: &Dual2, b: &Dual2) -> Result<bool, String> {
+        a.ptr_eq_py(b).map_err(cls)
+    }
+    pub fn dual2_grad1_manifold(a: &Dual2, vars: Vec<String>) -> Result<Vec<Dual2>, String> {
+        Python::with_gil(|py| a.grad1_manifold_py(py, vars).map_err(cls))
+    }
+    /// `ADOrder.__new__(*x.__getnewargs__())` then `__setstate__(x.__getstate__())`; also the bare `__new__` result
+    pub fn adorder_pickle(a: &ADOrder) -> Result<(ADOrder, ADOrder), String> {
+        let (i,) = a.__getnewargs__().map_err(cls)?;
+        let fresh = ADOrder::new_py(i).map_err(cls)?;
+        let mut out = fresh;
+        Python::with_gil(|py| {
+            let st = a.__getstate__(py).map_err(cls)?;
+            out.__setstate__(st).map_err(cls)
+        })?;
+        Ok((fresh, out))
+    }
 }
